@@ -253,7 +253,15 @@ func pinnedC01() []*pgen.Case {
 		pinnedHelperNameClash("pin_helper_clash_struct", "// goverter:output:file ./p.gen.go\n", false),
 		pinnedHelperNameClash("pin_helper_clash_vars", "", true),
 		pinnedSameName("pin_same_impl_name", false), pinnedSameName("pin_same_func_name", true),
-		pinnedFuncTypes("pin_func_types")}
+		pinnedFuncTypes("pin_func_types"), pinnedBlankFields("pin_blank_fields")}
+}
+
+// pinnedBlankFields: blank fields cannot be read or assigned, also not when the output lands in the package of the types.
+func pinnedBlankFields(name string) *pgen.Case {
+	src := "package p\n\ntype In struct{ _ int; V int; _ string; N struct{ _ bool; X int } }\ntype Out struct{ _ int; V int; _ string; N struct{ _ bool; X int } }\n\n// goverter:variables\nvar (\n\tConvert func(source In) Out\n\tConvertList func(source []In) []Out\n)\n"
+	c := pgen.RawCase(name, map[string]string{"p/input.go": src}, nil, []string{"./p"})
+	c.Feature("tag", "blank-fields")
+	return c
 }
 
 // pinnedFuncTypes: function types that goverter has to spell out (make, temporaries): the rendered type must be
